@@ -21,8 +21,13 @@ def model(*patterns, aux="", opt=None):
     return deco
 
 
+# instances that are never modelled although a generic pattern would match them (quote!'s repetition adapters have bodies that
+# simply delegate to the wrapped value's to_tokens - they must run, not be recorded as opaque nodes)
+EXCLUDE = ["<syn::__private::*", "<quote::__private::*", "<&syn::__private::*"]
+
+
 def stoplist_text(opts=()):
-    lines = []
+    lines = ["!" + p for p in EXCLUDE]
     for p, fn, aux, opt in REGISTRY:
         if opt is None or opt in opts:
             lines.append(p + (" || " + aux if aux else ""))
@@ -523,7 +528,8 @@ def m_string_with_capacity(I, st, inst, args):
        "alloc::str::<impl str>::to_owned", "alloc::str::<impl std::borrow::ToOwned for str>::to_owned",
        "<std::boxed::Box<str> as std::convert::From<&str>>::from", "std::str::<impl str>::into_string",
        "<std::string::String as std::convert::From<std::boxed::Box<str>>>::from",
-       "<std::string::String as std::str::FromStr>::from_str_infallible")
+       "<std::string::String as std::str::FromStr>::from_str_infallible", "std::str::<impl std::borrow::ToOwned for str>::to_owned",
+       "alloc::str::<impl std::borrow::ToOwned for str>::to_owned")
 def m_string_from_str(I, st, inst, args):
     return StringVal(str_of(I, st, args[0]))
 
@@ -673,6 +679,21 @@ def m_trim_start_matches(I, st, inst, args):
         while b and a.startswith(b):
             a = a[len(b):]
         return new_str_ptr(I, st, a)
+    if isinstance(b, str) and b and not isinstance(a, (str, ByteSeq)):
+        # symbolic text, constant prefix: strip 0, 1 or 2 repetitions (three or more are assumed away: a recorded bound)
+        from .lazy import constrain_once
+        w = tosym(a)
+        n = len(b)
+        constrain_once(st, "trim3:%s" % w.sexpr(), z3.Not(z3.PrefixOf(z3.StringVal(b * 3), w)))
+        alts = []
+        for k in (0, 1, 2):
+            rest = z3.SubString(w, k * n, z3.Length(w) - k * n) if k else w
+            cond = z3.And(z3.PrefixOf(z3.StringVal(b * k), w), z3.Not(z3.PrefixOf(z3.StringVal(b), rest))) if k else z3.Not(z3.PrefixOf(z3.StringVal(b), w))
+            if I.feasible(st, cond):
+                s2 = st.fork()
+                I.add_pc(s2, cond)
+                alts.append((s2, new_str_ptr(I, s2, z3.simplify(rest))))
+        return Forks(alts)
     raise Unsupported("trim_start_matches of symbolic string")
 
 
@@ -1173,6 +1194,20 @@ def m_parse_int_error_display(I, st, inst, args):
         fmt_append(I, st, args[1], msgs[k.v])
         return OK_UNIT
     raise Unsupported("ParseIntError kind %r" % (k,))
+
+
+@model("<bool as std::str::FromStr>::from_str", opt="strbool")
+def m_bool_from_str(I, st, inst, args):
+    """bool::from_str on a string kept as a z3 string (derive-time option values): "true" / "false" / anything else"""
+    sv = str_of(I, st, args[0])
+    alts = []
+    for s1, is_t in _bool_alts(I, st, seq_eq(I, st, sv, "true")):
+        if is_t:
+            alts.append((s1, Agg(0, (True,))))
+            continue
+        for s2, is_f in _bool_alts(I, s1, seq_eq(I, s1, sv, "false")):
+            alts.append((s2, Agg(0, (False,)) if is_f else Agg(1, (Agg(None, ()),))))
+    return Forks(alts)
 
 
 @model("<std::num::NonZero<*> as std::str::FromStr>::from_str")
